@@ -214,6 +214,23 @@ Proof.
 Qed.
 Print Assumptions statement_relations_are_the_model.
 
+(* the model's own trace satisfies that statement, for every table, separator,
+   parse_keys flag and item list: the property, in the relational vocabulary,
+   about the executable model *)
+Theorem model_satisfies_statement :
+  forall sep pk custom t items,
+    observed_ok t sep pk custom items (parse_to_dict (lookup t) sep pk items)
+                (calls (lookup t) sep pk items) 0.
+Proof. exact model_observed_ok. Qed.
+Print Assumptions model_satisfies_statement.
+
+(* as deciders the monitor and the comparison with the model coincide: an
+   observation is accepted iff it is the model's trace (the TypeError of an
+   unhashable key does not say which item; res_eqb ignores that index) *)
+Theorem monitor_is_model_comparison : forall c, ok c = agree c.
+Proof. exact ok_eq_agree. Qed.
+Print Assumptions monitor_is_model_comparison.
+
 (* ---- non-vacuity ------------------------------------------------------------ *)
 (* codes: a=97 b=98 c=99 '='=61 '1'=49 '2'=50 '.'=46 '0'=48 *)
 Definition ex_table : table :=
